@@ -733,8 +733,10 @@ func runC08(s *kernel.Sim, enumerate bool) {
 		}
 	} else if code == 200 {
 		s.Rule("R3")
-		if d := diffDigest(digestOf(expectFiles), after); d != "" && !anyFired {
-			s.Violate("R3", "success-but-wrong-files:"+endpoint, "%s answered 200 but the directory differs from old+payload: %s", endpoint, d)
+		if d := diffDigest(digestOf(expectFiles), after); d != "" && !multiFailure {
+			// (also when a fault was met and tolerated: an update that is answered 200 is in
+			// force completely, whatever happened on the way)
+			s.Violate("R3", "success-but-wrong-files:"+endpoint, "%s (%s) answered 200 but the directory differs from old+payload: %s", endpoint, faultDesc, d)
 		}
 		vNew, ferr := freshVerdicts(env.dir)
 		c08setEnv(env.dir)
